@@ -69,7 +69,17 @@ class Run:
         if not os.path.exists(gosum):
             shutil.copy(os.path.join(REPO, "go.sum"), gosum)
         t = time.time()
-        p = subprocess.run(["go", "build", "-tags", "verif", "-o", out, "./cmd/" + cmd], cwd=HARNESS, env=GOENV,
+        args = ["go", "build", "-tags", "verif", "-o", out]
+        if os.path.realpath(REPO) != "/repo":
+            # VERIF_REPO=<scratch worktree>: build against it through a generated go.mod (self-tests with
+            # mutants never touch /repo)
+            mod = open(os.path.join(HARNESS, "go.mod")).read().replace("=> /repo", "=> " + os.path.realpath(REPO))
+            mf = os.path.join(self.work, "alt.go.mod")
+            with open(mf, "w") as f:
+                f.write(mod)
+            shutil.copy(gosum, os.path.join(self.work, "alt.go.sum"))
+            args += ["-modfile", mf]
+        p = subprocess.run(args + ["./cmd/" + cmd], cwd=HARNESS, env=GOENV,
                            stdout=subprocess.PIPE, stderr=subprocess.STDOUT, text=True)
         if p.returncode != 0:
             log(p.stdout[-4000:])
